@@ -309,6 +309,10 @@ def features(table, inv):
             f.add("char-const")
         if t.startswith('"'):
             f.add("string")
+            if t[1:-1].endswith('"'):
+                f.add("string-ends-in-escaped-quote")
+        if t[:1] in "\"'" and "\\" in t:
+            f.add("escape-in-literal")
         prev = t
     if any(inv[i] == ")" and i + 1 < len(inv) and inv[i + 1] == "(" for i in range(len(inv))):
         f.add("call-result-applied-to-following-tokens")
@@ -377,7 +381,7 @@ def case_strategy():
         # arguments are often spelled like the parameters of the macro they are passed to (MAX(a, b))
         atom = st.one_of(st.sampled_from(names + ["w", "q"]), num, st.sampled_from(["'x'", '"s t"', "+", "-", "<"]), st.sampled_from(PARAMS),
                          # constants whose content is spelled like a punctuator or operator of the macro syntax
-                         st.sampled_from(["','", "'('", "')'", "'#'", '","', '"##"', '")"', '"a\\\\"', '"\\\\"']))
+                         st.sampled_from(["','", "'('", "')'", "'#'", '","', '"##"', '")"', '"a\\\\"', '"\\\\"', '"q\\""', '"\\""']))
         arg = st.one_of(
             st.just([]),
             st.lists(atom, min_size=1, max_size=3),
@@ -403,12 +407,37 @@ def scenario_strategy():
 
     num = st.sampled_from(["0", "1", "2", "7"])
 
+    # string literals assembled from self-contained pieces (so every literal is well formed); the escaped
+    # quote / backslash may stand anywhere, in particular as the first or the last character of the content
+    ESC_PIECES = ["a", "b c", "hi", " ", "%d", "\\\"", "\\\\", "\\n", "'", "#", ",", "(", "\\\"", "\\t"]
+    ESC_CHARS = st.sampled_from(["'\"'", "'\\''", "'\\\\'", "'\\\"'", "'a'", "'\\n'"])
+
+    def escaped_literal():
+        body = st.lists(st.sampled_from(ESC_PIECES), min_size=0, max_size=4).map("".join)
+        return st.one_of(body, body.map(lambda c: c + "\\\""), body.map(lambda c: "\\\"" + c + "\\\""), body.map(lambda c: c + "\\\\")).map(lambda c: '"' + c + '"')
+
     @st.composite
     def case(draw):
-        kind = draw(st.sampled_from(["selfref-arg", "plain-and-paste", "comma-from-arg", "selfref-arg", "plain-and-paste", "name-as-arg", "variadic-later-arg"]))
+        kind = draw(st.sampled_from(["selfref-arg", "plain-and-paste", "comma-from-arg", "selfref-arg", "plain-and-paste", "name-as-arg", "variadic-later-arg", "stringify-escapes"]))
         n1, n2 = draw(num), draw(num)
         tab = []
-        if kind == "selfref-arg":
+        if kind == "stringify-escapes":
+            # C11 6.10.3.2p2: # inserts a \ before each " and \ of a string literal / character constant of the
+            # argument - wherever in the literal they stand (first, last, adjacent), wherever the literal stands
+            # in the argument, and again when the produced string is stringified a second time
+            l1, l2 = draw(escaped_literal()), draw(st.one_of(escaped_literal(), ESC_CHARS))
+            tab.append(M("F", ["a"], draw(st.sampled_from([["#", "a"], ["#", "a"], ["#", "a", "a"], ["a", "#", "a"]]))))
+            tab.append(M("G", ["a"], ["F", "(", "a", ")"]))
+            tab.append(M("H", [], ["#", "__VA_ARGS__"], variadic="..."))
+            tab.append(M("X", None, draw(st.sampled_from([[l1], [l1, l2], ["w", l1]]))))
+            tab.append(M("Y", ["a"], ["a"]))
+            inv = draw(st.sampled_from([
+                ["F", "(", l1, ")"], ["F", "(", "w", l1, ")"], ["F", "(", l1, "+", "1", ")"], ["F", "(", "w", "(", l1, ")", "+", "1", ")"],
+                ["F", "(", l2, l1, ")"], ["F", "(", l1, l2, ")"], ["G", "(", "X", ")"], ["G", "(", "Y", "(", l1, ")", ")"],
+                ["G", "(", "F", "(", l1, ")", ")"], ["H", "(", l1, ",", l2, ")"], ["H", "(", l2, ",", l1, ")"],
+                ["G", "(", "H", "(", l2, ",", "X", ")", ")"], ["F", "(", l1, ")", l1],
+            ]))
+        elif kind == "selfref-arg":
             shape = draw(st.sampled_from(["self", "mutual", "paren", "fn-self"]))
             if shape == "self":
                 tab.append(M("X", None, [n1, "+", "X"]))
